@@ -992,7 +992,9 @@ def replay(prop, path, seed):
     with open(vp, "w") as f:
         f.write(json.dumps(vec) + "\n")
     m = vec.get("m")
-    if m == "obj":
+    if prop == "C05" or m == "ppx":
+        args = ["replay-guard", "--in", vp, "--threads", 1, "--lifts", 12, "--tmp", os.path.join(ctx.dir, "iso")]
+    elif m == "obj":
         args = ["replay-obj", "--in", vp, "--lifts", 12, "--threads", 1]
     elif m == "mm":
         args = ["replay-mm", "--in", vp, "--lifts", 16, "--groups", "all", "--threads", 1]
